@@ -198,7 +198,7 @@ theorem lp_bt_step (P : Params α) (n : Nat) (ti tq : TeamAgg α) (od : α × α
        else if tq.rank = ti.rank then ofNat 1 / ofNat 2
        else s
      let omega := omega + sigma_squared_to_ciq * (s - piq)
-     let gamma_value := gammaVal P.gamma c_iq n ti.mu ti.sig2 ti.rank
+     let gamma_value := gammaVal P.gamma c_iq n ti.mu ti.sig2 ti.players ti.rank
      let delta := delta + ((gamma_value * sigma_squared_to_ciq) / c_iq) * piq * (ofNat 1 - piq)
      (omega, delta)) =
     (od.1 + (btPair P.beta P.gamma n ti tq).1, od.2 + (btPair P.beta P.gamma n ti tq).2) := rfl
@@ -226,7 +226,7 @@ theorem lp_tm_step (L : Leaves α) (P : Params α) (cmul : α) (n : Nat) (ti tq 
      let c_iq := cmul * sqrt (ti.sig2 + tq.sig2 + (ofNat 2 * (beta * beta)))
      let delta_mu := (ti.mu - tq.mu) / c_iq
      let s2c := ti.sig2 / c_iq
-     let gamma_value := gammaVal P.gamma c_iq n ti.mu ti.sig2 ti.rank
+     let gamma_value := gammaVal P.gamma c_iq n ti.mu ti.sig2 ti.players ti.rank
      if tq.rank > ti.rank then
        (omega + s2c * L.v delta_mu (P.kappa / c_iq),
         delta + gamma_value * s2c / c_iq * L.w delta_mu (P.kappa / c_iq))
@@ -340,7 +340,7 @@ theorem lp_plOmegaDelta_eq (hsub : ∀ a b : α, a - b = a + -b) (g : GammaFn α
     (i : Nat) (ti : TeamAgg α) :
     plOmegaDelta g ts c sq a i ti =
       ((loopPLInner ts c sq a i ti).1 * (ti.sig2 / c),
-       (loopPLInner ts c sq a i ti).2 * (ti.sig2 / (c * c)) * gammaVal g c ts.length ti.mu ti.sig2 ti.rank) := by
+       (loopPLInner ts c sq a i ti).2 * (ti.sig2 / (c * c)) * gammaVal g c ts.length ti.mu ti.sig2 ti.players ti.rank) := by
   rw [lp_loopPLInner_eq hsub ts c sq a hsq ha i ti]
   rfl
 
